@@ -33,10 +33,10 @@ def _fix(front, back, req_fr, resp_fr):
 
 
 def scn(front, back, n, req_fr, req_size, resp_fr, resp_size, step=1, chunk=16384, pad=0, cfrag=0, cpause=0,
-        bfrag=0, bpause=0, sockbuf=0, win=65535, abort=0, seed=1, bufsz=BUF, stagger=0, bset_delay=0):
+        bfrag=0, bpause=0, sockbuf=0, win=65535, abort=0, seed=1, bufsz=BUF, stagger=0, bset_delay=0, sep_end=0, mix=0):
     req_fr, resp_fr = _fix(front, back, req_fr, resp_fr)
     return ["blackbox", front, back, bufsz, n, req_fr, req_size, resp_fr, resp_size, step, chunk, pad, cfrag, cpause,
-            bfrag, bpause, sockbuf, win, abort, seed, stagger, bset_delay]
+            bfrag, bpause, sockbuf, win, abort, seed, stagger, bset_delay, sep_end, mix]
 
 
 def name_of(op):
@@ -84,6 +84,16 @@ def quick_scenarios(rng):
         scn("h2", rng.choice(["h1", "h2"]), 16, "none", 0, "cl", 500000, step=0, win=1 << 30, seed=s()),
         # Expect: 100-continue: the body is held back until the interim response arrives
         scn("h1", "h1", 2, "clexp", 20000, "cl", 3000, seed=s()),
+        # an H2 client that reads a large response late (32 KiB receive buffer, paused until its own upload on
+        # another stream of the same connection is done): sozu owes WINDOW_UPDATEs while its write side is stopped
+        # mid-frame (flow control out of the way: 1 GiB windows; the upload starts once the download's sender is
+        # persistently stuck); every frame the client receives is parsed strictly
+        scn("h2", "h1", 2, "data", 49152, "cl", 6 * 1048576, step=0, chunk=16384, cpause=1000, sockbuf=32768, win=1 << 30, mix=1, seed=s()),
+        # bodies without content-length that end with a SEPARATE empty DATA frame carrying END_STREAM, every pair with
+        # an H2 side (toward HTTP/1.1 the strict reader must see the complete last-chunk 0 CRLF CRLF)
+        scn("h2", "h1", 2, "data", 20000, "chunked", 30000, chunk=1000, sep_end=1, seed=s()),
+        scn("h1", "h2", 2, rng.choice(["cl", "chunked"]), 20000, "data", 30000, chunk=1000, sep_end=1, seed=s()),
+        scn("h2", "h2", 3, "data", 20000, "data", 30000, chunk=1000, sep_end=1, seed=s()),
         # unclean ends stay unclean
         scn("h1", "h1", 1, "cl", 50000, rng.choice(["cl", "chunked"]), 50000, chunk=1000, abort=1, seed=s()),
         scn("h2", "h2", 1, "data", 50000, "data", 50000, chunk=1000, abort=1, seed=s()),
@@ -143,9 +153,13 @@ def random_scenario(rng, big=False):
             abort = 1
         if resp_fr in ("head", "s204", "s304"):
             abort = 0
+    mix_ = int(front == "h2" and 2 <= n <= 3 and not abort and req_fr == "data" and req_size <= 49152 and resp_fr in ("cl", "chunked", "data", "datacl") and rng.random() < 0.3)
+    if mix_:
+        win = 1 << 30
     return scn(front, back, n, req_fr, req_size, resp_fr, resp_size, step=rng.choice([0, 1, 9]), chunk=chunk, pad=pad,
                cfrag=frag(), cpause=pause(), bfrag=frag(), bpause=pause(), sockbuf=sockbuf, win=win, abort=abort,
                seed=rng.randrange(1, 10 ** 6), bufsz=rng.choice([BUF, BUF, 32768]),
+               sep_end=int(rng.random() < 0.25), mix=mix_,
                stagger=int(front == "h2" and back == "h2" and rng.random() < 0.2) or (2 if front == "h1" and not abort and resp_fr != "close" and rng.random() < 0.2 else 0), bset_delay=rng.choice([0, 0, 0, 30]) if back == "h2" else 0)
 
 
